@@ -35,7 +35,11 @@ def case_strategy(draw, tier="quick"):
     timed = fam in ("window", "wgb", "rolling") and draw(st.integers(0, 2)) == 0
     t = draw(dc.table(max_rows=12, time_index=timed, min_rows=2))
     cuts = draw(dc.cuts_for(len(t["rows"]), max_cuts=5))
-    op = {"fam": fam, "col": draw(st.sampled_from(["x", "y", "x"]))}
+    op = {"fam": fam, "col": draw(st.sampled_from(["x", "y", "x"])),
+          # grouping by a column name or by a streaming series (its history is part of the state)
+          "grouper": draw(st.sampled_from(["col", "series", "series_mod"]))}
+    if op["grouper"] == "series_mod" and t["gkind"] == "str":
+        op["grouper"] = "series"
     if fam == "red":
         op["agg"] = draw(st.sampled_from(["sum", "count"]))
     elif fam == "gb":
@@ -69,11 +73,14 @@ def build(sdf, op, start, first):
     if f == "red":
         kw = {} if first else {"start": start}
         return getattr(sdf[col], a)(**kw)
+    def key(frame):
+        g = op.get("grouper", "col")
+        return "g" if g == "col" else (frame.g if g == "series" else frame.g % 2)
     if f == "gb":
         kw = {} if first else {"start": start}
-        return getattr(sdf.groupby("g")[col], a)(**kw)
+        return getattr(sdf.groupby(key(sdf))[col], a)(**kw)
     if f == "gbmean":
-        return sdf.groupby("g")[col].mean(with_state=True, start=None if first else start)
+        return sdf.groupby(key(sdf))[col].mean(with_state=True, start=None if first else start)
     if f == "rolling":
         r = sdf.rolling(op["window"], with_state=True, start=() if first else start)[col]
         return getattr(r, a)()
@@ -89,7 +96,7 @@ def build(sdf, op, start, first):
         return w.size if a == "size" else getattr(w, a)()
     if f == "wgb":
         w = sdf.window(with_state=True, start=None if first else start, **op["window"])
-        return getattr(w.groupby("g")[col], a)()
+        return getattr(w.groupby(key(w))[col], a)()
     if f == "expanding":
         e = sdf.expanding(with_state=True, start=None if first else start)[col]
         return e.size if a == "size" else getattr(e, a)()
@@ -121,6 +128,8 @@ def execute(case):
     t, cuts, op = case["table"], case["cuts"], case["op"]
     bs = dc.batches(t, cuts)
     name = op["fam"] + "." + op["agg"] + (("(" + op["derived"] + ")") if op.get("derived") else "")
+    if op["fam"] in ("gb", "gbmean", "wgb") and op.get("grouper", "col") != "col":
+        name += "[by-series]"
     if isinstance(op.get("window"), dict):
         name += ":" + ("value" if "value" in op["window"] else "n")
     v = []
